@@ -2,6 +2,7 @@ package enga
 
 import (
 	"fmt"
+	"github.com/gkampitakis/go-snaps/snaps"
 	"math/rand/v2"
 	"strings"
 
@@ -16,6 +17,9 @@ type TestPlan struct {
 	Name  string `json:"name"`
 	Ops   []Op   `json:"ops"`
 	Execs int    `json:"execs"`
+	// SkipAt > 0: every execution calls snaps.Skip after its first SkipAt calls and ends
+	// there (the remaining calls are not made)
+	SkipAt int `json:"skip_at,omitempty"`
 }
 
 // History is a generated program: tests, their calls, and pre-existing content.
@@ -36,6 +40,7 @@ type HistOpts struct {
 	NoHuge     bool
 	NoHeader   bool
 	Standalone bool
+	Skips      bool // some tests call snaps.Skip part-way through
 	Twins      bool // may add a second live test with the SAME name on other files (package p and p_test both declaring TestX)
 }
 
@@ -259,6 +264,15 @@ func GenHistory(r *rand.Rand, o HistOpts) History {
 		h.Interleave = true
 		h.Classes["interleaved-tests"] = true
 	}
+	if o.Skips {
+		for i := range h.Tests {
+			if n := len(h.Tests[i].Ops); n >= 1 && r.IntN(6) == 0 {
+				h.Tests[i].SkipAt = 1 + r.IntN(n)
+				h.Tests[i].Ops = h.Tests[i].Ops[:h.Tests[i].SkipAt]
+				h.Classes["test-calls-snaps.Skip-after-some-calls"] = true
+			}
+		}
+	}
 	if o.Twins && r.IntN(6) == 0 {
 		// test names are unique per package only: `package p` and `package p_test` of one
 		// directory may both declare TestX and run in one binary. The twin uses its own files.
@@ -345,6 +359,10 @@ func (s *Sess) RunProcessN(r *rand.Rand, h *History, m vkit.Mode, noColor bool, 
 						return false
 					}
 				}
+				if tp.SkipAt > 0 {
+					snaps.Skip(e.t, "skipped by plan")
+					e.t.Take()
+				}
 				s.EndExec(e.t)
 			}
 		}
@@ -379,6 +397,10 @@ func (s *Sess) RunProcessN(r *rand.Rand, h *History, m vkit.Mode, noColor bool, 
 			}
 		}
 		if e.next >= len(e.plan.Ops) {
+			if e.plan.SkipAt > 0 {
+				snaps.Skip(e.t, "skipped by plan")
+				e.t.Take()
+			}
 			s.EndExec(e.t)
 			live[i] = nil
 		}
